@@ -661,7 +661,17 @@ private:
             log_event(StructuredLogger::Level::Info,
                       "control.connection.accepted",
                       {{"remote", remote_address}});
-            handle_client(client, remote_address);
+            try {
+                handle_client(client, remote_address);
+            } catch (const std::exception& ex) {
+                // A request must never take the daemon down: report the failure to this client and keep serving.
+                log_event(StructuredLogger::Level::Error,
+                          "control.request.internal_error",
+                          {{"remote", remote_address}, {"what", ex.what()}});
+                send_response(client,
+                              make_error("ERR_CONTROL_INTERNAL", "Request could not be processed", "Check the daemon log"),
+                              false);
+            }
             close_socket(client);
         }
     }
